@@ -377,6 +377,20 @@ def reload_rule(ctx, rule='C02.reload'):
                            'at %s the element count of the free-list page is compared with a bound computed from the page size (%s) that ignores the page\'s overflow count: '
                            'a valid free list that spans overflow pages is refused or cut on open' % (dbopen.loc(bb), c16._fmt(e)[:120]), where=dbopen.loc(bb)))
     for bb, t, c in sites:
+        # the free set is seeded with the persisted list itself: a list *computed* at open (pages "recovered" by a reachability walk, a filtered copy) makes whatever that
+        # computation gets wrong allocatable
+        head = du.sym(t['args'][1])
+        while head[0] == 'call' and len(head[2]) >= 1 and head[1] not in F.by_path and last_seg(strip_generics(head[1])) in (
+                'deref', 'as_slice', 'as_ref', 'borrow', 'as_mut_slice', 'deref_mut', 'from_ref', 'into_iter', 'iter', 'copied', 'cloned'):
+            head = head[2][0]
+        if head[0] == 'call' and head[1] in F.by_path:
+            g = F.by_path[head[1]]
+            if not (g.self_adt and last_seg(g.self_adt) == 'Page'):
+                res.append(bad(rule, '%s | free set seeded with a computed list (%s)' % (dbopen.qual, g.qual),
+                               'the list handed to %s at %s is the result of %s, not the persisted free list read from the page: pages that computation wrongly takes for unused '
+                               '(overflow pages it does not follow, pages of the previous snapshot) become allocatable while they are live' % (ini.qual, dbopen.loc(bb), g.qual),
+                               where=dbopen.loc(bb)))
+                continue
         _, atoms = du.slice_operand(t['args'][1])
         from_hdr = has_call(atoms, hdr.path)
         from_field = has_field(atoms, 'Meta', 'freelist_page')
@@ -452,6 +466,43 @@ def _slot_dependence(ctx, fn, du, operand, NONID):
     return dep, nonid
 
 
+def _eval_slot(e, v, depth=0):
+    """value of a slot expression when the snapshot's Meta.meta_page is v; None when it cannot be evaluated"""
+    if depth > 30 or not isinstance(e, tuple) or not e:
+        return None
+    k = e[0]
+    if k == 'const':
+        return e[1] if isinstance(e[1], (int, bool)) else None
+    if k == 'field':
+        return v if e[2] and e[2][-1] == 'meta_page' else None
+    if k == 'un':
+        a = _eval_slot(e[2], v, depth + 1)
+        if a is None:
+            return None
+        if e[1] == 'Not':
+            return (not a) if isinstance(a, bool) else None
+        if e[1] in ('cast', 'Cast', 'copy', 'move'):
+            return int(a)
+        if e[1] == 'Neg':
+            return -a
+        return None
+    if k == 'bin':
+        a, b = _eval_slot(e[2], v, depth + 1), _eval_slot(e[3], v, depth + 1)
+        if a is None or b is None:
+            return None
+        op = e[1].replace('WithOverflow', '').replace('Unchecked', '')
+        try:
+            return {'Eq': lambda: a == b, 'Ne': lambda: a != b, 'Lt': lambda: a < b, 'Le': lambda: a <= b, 'Gt': lambda: a > b, 'Ge': lambda: a >= b,
+                    'Add': lambda: int(a) + int(b), 'Sub': lambda: int(a) - int(b), 'Mul': lambda: int(a) * int(b), 'BitXor': lambda: int(a) ^ int(b),
+                    'BitAnd': lambda: int(a) & int(b), 'BitOr': lambda: int(a) | int(b), 'Rem': lambda: int(a) % int(b) if b else None}[op]()
+        except KeyError:
+            return None
+    if k == 'call' and len(e[2]) == 1 and last_seg(strip_generics(e[1])) in ('from', 'into', 'try_from', 'try_into', 'unwrap'):
+        a = _eval_slot(e[2][0], v, depth + 1)
+        return None if a is None else int(a)
+    return None
+
+
 def alternate_rule(ctx, rule='C02.alternate'):
     """the header slot written by a commit is a non-identity function of the slot of the snapshot it started from"""
     res = []
@@ -469,6 +520,13 @@ def alternate_rule(ctx, rule='C02.alternate'):
             if s['rv']['k'] not in ('use', 'cast'):
                 continue
             dep, nonid = _slot_dependence(ctx, fn, du, s['rv']['op'], NONID)
+            # where the expression can be evaluated for both slots, it is the swap 0 -> 1, 1 -> 0 (`u64::from(slot != 0)` has the same shape and is the identity)
+            vals = [_eval_slot(du.sym(s['rv']['op']), v) for v in (0, 1)]
+            if dep and nonid and None not in vals and (int(vals[0]), int(vals[1])) != (1, 0):
+                res.append(bad(rule, '%s | slot function is not the swap (0 -> %s, 1 -> %s)' % (fn.qual, int(vals[0]), int(vals[1])),
+                               'the slot number stored into the header image at %s evaluates to %s for a snapshot in slot 0 and to %s for one in slot 1: a commit overwrites the header '
+                               'it started from, and the other slot keeps an ever older state' % (fn.loc(bb, si), int(vals[0]), int(vals[1])), where=fn.loc(bb, si)))
+                continue
             if dep and nonid:
                 res.append(ok(rule, 'meta_page stored at %s is computed from (not copied from) the snapshot\'s slot' % fn.loc(bb, si), sites=1))
             else:
@@ -517,6 +575,7 @@ def run(ctx, tier):
     results += c12.select_total(ctx, rule='C02.select')
     results += c12.checksum_total(ctx, rule='C02.checksum-total')
     results += c12.validate_before_trust(ctx, rule='C02.validate-before-trust')
+    results += c12.selection_always_validates(ctx, rule='C02.selection-validates')
     import c15
     results += c15.legacy_fallback(ctx, rule='C02.legacy-conversion')
     import profile
@@ -528,6 +587,8 @@ def run(ctx, tier):
     # which a header that is not yet durable still needs
     import c09
     results += c09.file_via_guard(ctx, rule='C02.file-via-guard')
+    # the slot a commit writes is the other one than the slot of the header the transaction began from: that header is read from the file, never from a cached copy
+    results += c09.snapshot_source(ctx, rule='C02.snapshot-source')
     return dict(
         results=results,
         stats=dict(ctx.stats),
